@@ -423,17 +423,14 @@ fn run_case(c: &Case, msgs: &[Option<Msg>], seed: u64, st: &mut Stats) {
                     c.to_json(),
                 );
             } else {
+                // when the payload source was first touched is recorded but NOT judged: the statement fixes the
+                // byte stream, not the moment the source is first read (a reader that serves the end of the header
+                // and the start of the payload in one call is correct)
                 let first = built.first_at.load(SeqCst);
                 if c.source > 0 && msgs[c.msg].is_some() && first != usize::MAX && first < hlen {
-                    st.outcome("payload-touched-early");
-                    st.violate(
-                        format!("{}:payload-read-before-header-delivered", iface),
-                        format!("{}: payload source first read when the consumer had {} of {} header bytes", c.to_json(), first, hlen),
-                        c.to_json(),
-                    );
-                } else {
-                    st.outcome("exact");
+                    st.count("payload_source_touched_in_the_call_that_finished_the_header", 1);
                 }
+                st.outcome("exact");
             }
         }
         Err(e) => {
@@ -449,7 +446,7 @@ pub fn run(ctx: &Ctx) -> ! {
     let mut rep = Report::new(
         ctx,
         "model_checking",
-        "messages {empty operation group, Print-Job request, Get-Printer-Attributes response, bare IppPayload} x payload source {none, blocking cursor, blocking 1-byte dribbler, blocking with Interrupted, async ready, async fragmented, async not-ready with immediate wake, async not-ready with deferred wake (fired by the manual executor / a helper thread under block_on)} x payload length {0,1,2,8191,8192,8193 (+65536, 3 MiB)} x consumer {into_read, into_async_read, into_async_read coming back with a DIFFERENT buffer after every not-ready answer} with EVERY sequence of <= 2 (3) buffer sizes over {0,1,2,3,8,H-1,H,H+1,4096,65536} (a zero-length buffer must return 0 without ending the stream) followed by a fixed size from {7,4096,65536} until end-of-stream. Oracle: bytes received == to_bytes() ++ payload, then Ok(0) three times, payload source untouched until the header was delivered. states = distinct (message, source, length, interface); transitions = reads answered by the payload source; non-trivial = non-empty payload",
+        "messages {empty operation group, Print-Job request, Get-Printer-Attributes response, bare IppPayload} x payload source {none, blocking cursor, blocking 1-byte dribbler, blocking with Interrupted, async ready, async fragmented, async not-ready with immediate wake, async not-ready with deferred wake (fired by the manual executor / a helper thread under block_on)} x payload length {0,1,2,8191,8192,8193 (+65536, 3 MiB)} x consumer {into_read, into_async_read, into_async_read coming back with a DIFFERENT buffer after every not-ready answer} with EVERY sequence of <= 2 (3) buffer sizes over {0,1,2,3,8,H-1,H,H+1,4096,65536} (a zero-length buffer must return 0 without ending the stream) followed by a fixed size from {7,4096,65536} until end-of-stream. Oracle: bytes received == to_bytes() ++ payload, then Ok(0) three times (when the payload source is first touched is recorded, not judged). states = distinct (message, source, length, interface); transitions = reads answered by the payload source; non-trivial = non-empty payload",
     );
     rep.assume("deferred wake-ups under the blocking interface are fired by a helper OS thread (block_on must be woken from outside); its timing does not influence the byte stream");
     let msgs = messages();
